@@ -874,6 +874,13 @@ class CompartmentalModel:
                     if v not in s.strata:
                         raise ValueError(f"Invalid stratum {v} for {s}")
 
+    def _get_strain_stratification_name(self) -> Optional[str]:
+        """Name of the (single) strain stratification applied to this model, or None"""
+        for stratification in self._stratifications:
+            if stratification.is_strain():
+                return stratification.name
+        return None
+
     def get_stratification(self, name: str) -> Stratification:
         """Return Stratification matching name, or None if not found
 
